@@ -16,6 +16,7 @@ import (
 	"google.golang.org/protobuf/proto"
 	"google.golang.org/protobuf/types/known/timestamppb"
 
+	"github.com/drand/drand/v2/crypto"
 	pdkg "github.com/drand/drand/v2/protobuf/dkg"
 )
 
@@ -78,7 +79,7 @@ func (h *c08H) proposeReshare(leader *vfdNode, remaining, joining, leaving []*vf
 var c08LeftClasses = []string{"stale-epoch-E-1", "stale-epoch-E-2", "stale-epoch-1-as-first-proposal", "stale-epoch-equal-E",
 	"expired-timeout", "threshold-below-minimum", "threshold-above-n", "unknown-scheme", "genesis-time-changed",
 	"genesis-seed-changed", "leader-joining", "leader-leaving", "nil-terms", "empty-terms", "foreign-beacon-id-in-terms",
-	"self-missing"}
+	"self-missing", "changed-beacon-period", "changed-scheme"}
 
 // leftInvite sends X (state Left) an invitation of the given class, signed by a member of the current group with its
 // real key. Returns false when the class has no meaning here.
@@ -150,6 +151,16 @@ func (h *c08H) leftInvite(X *vfdNode, class string) bool {
 		terms.BeaconID = "vf-some-other-beacon"
 	case "self-missing":
 		terms.Joining = nil
+	case "changed-beacon-period":
+		// X still holds the chain's period in the record of the attempt it left in
+		terms.BeaconPeriodSeconds += uint32(h.rng.Range(1, 30))
+	case "changed-scheme":
+		for _, id := range vfdShuffledStrings(h.rng, crypto.ListSchemes()) {
+			if id != fin.SchemeID {
+				terms.SchemeID = id
+				break
+			}
+		}
 	default:
 		return false
 	}
@@ -202,6 +213,7 @@ func (h *c08H) driveLeft() {
 	X := h.pick(c08Without(members, leader))
 	rest := c08Without(members, X)
 	p = h.proposeReshare(leader, rest, nil, []*vfdNode{X}, len(rest)/2+1, "valid-with-leaver")
+	tLeave := time.Now()
 	if p == nil || !h.cleanEpoch(p) {
 		setupFailed("epoch-E")
 		return
@@ -221,19 +233,42 @@ func (h *c08H) driveLeft() {
 			h.cleanEpoch(pp)
 		}
 	}
-	// every invalid invitation, in random order, with a little noise in between
-	for _, i := range h.rng.Perm(len(c08LeftClasses)) {
-		h.leftInvite(X, c08LeftClasses[i])
-		if h.rng.Chance(15) {
-			h.noise(nil)
+	// every invalid invitation, in random order, with a little noise in between. Every second history of the family
+	// goes straight to the valid re-invitation instead, so that the re-join is exercised whatever X answered before
+	// (an invitation that is wrongly accepted takes X out of Left for good).
+	if (h.c.Index/20)%2 == 1 {
+		for _, i := range h.rng.Perm(len(c08LeftClasses)) {
+			h.leftInvite(X, c08LeftClasses[i])
+			if h.rng.Chance(15) {
+				h.noise(nil)
+			}
 		}
+	}
+	// A leaver's own execution goroutine of epoch E only ends two phase time-outs after E's kick-off (its kyber
+	// instance answers "leaving node can process responses only after creating shares" at the justification tick) and
+	// then stores Failed over whatever the node's current record is, if that is Executing. With real phase time-outs
+	// (10 s and more) nobody is invited back that fast; with the harness's 0.8 s phases the re-invitation has to wait
+	// for it, otherwise X's re-join is marked Failed by the execution of the epoch it LEFT in.
+	if d := time.Until(tLeave.Add(c08Kickoff + 3*c08Phase + 500*time.Millisecond)); d > 0 {
+		time.Sleep(d)
 	}
 	// the valid re-invitation, by a real command of a current member
 	if v := h.view(X); v.cur == nil || v.cur.State != Left {
 		run.Count("left_family_x_no_longer_left_before_reinvitation", 1)
 		return
 	}
-	_, _, members = h.latest()
+	g, gfin, members := h.latest()
+	if g == nil || len(members) != len(g.Nodes) {
+		run.Count("left_family_reinvitation_skipped_members_inconsistent", 1)
+		return
+	}
+	for _, m := range members {
+		// same precondition as the recovery step: every member holds the epoch the proposal starts from
+		if v := h.view(m); v.fin == nil || v.fin.Epoch != gfin.Epoch || v.inFlight() {
+			run.Count("left_family_reinvitation_skipped_members_inconsistent", 1)
+			return
+		}
+	}
 	n := len(members) + 1
 	p = h.proposeReshare(h.pick(members), members, []*vfdNode{X}, nil, h.rng.Range(n/2+1, n), "re-invitation-of-left-node")
 	if p == nil {
@@ -257,20 +292,70 @@ func (h *c08H) driveLeft() {
 		return
 	}
 	run.Count("left_family_reinvitations_accepted", 1)
-	// X answers the invitation (join with the current group file); the DKG itself is only run in a quarter of the
-	// histories: on the tree this was written against it does NOT complete for X (setupDKG configures a re-joining
-	// node from its stale finished record, see the report) - counted, not judged, the property does not cover it.
-	if !h.rng.Chance(25) {
-		gf := h.groupFile()
-		_ = h.step(c08Opt{kind: "cmd-join", class: "left-node-rejoins", actor: X, target: X}, func() error { return X.cmdJoin(gf) })
-		return
-	}
-	if h.cleanEpoch(p) {
-		run.Count("left_family_rejoin_dkgs_completed", 1)
-	} else {
-		run.Count("left_family_rejoin_dkgs_not_completed", 1)
-		if v := h.view(X); v.cur != nil {
-			run.Seen("left_family_x_state_after_rejoin_dkg", c08Desc(v))
+	// (f) for the node that left: the valid invitation has been accepted by everybody; everybody now answers it the
+	// right way (X joins with the current group file) and the leader executes undisturbed: the DKG must complete, for X
+	// too. A box that does not keep time (timer lag, slow bundles) makes this inconclusive, never a violation.
+	gf := h.groupFile()
+	for _, nd := range vfdShuffled(h.rng, p.participants()) {
+		nd := nd
+		var err error
+		switch {
+		case nd == p.leader:
+		case nd == X:
+			err = h.step(c08Opt{kind: "cmd-join", class: "left-node-rejoins", actor: X, target: X}, func() error { return X.cmdJoin(gf) })
+		default:
+			err = h.step(c08Opt{kind: "cmd-accept", class: "valid", actor: nd, target: nd}, func() error { return nd.cmdAccept() })
+		}
+		if err != nil {
+			if nd == X {
+				run.Violation("C08/not-recoverable/join-of-reinvited-left-node-refused",
+					fmt.Sprintf("X=%s (Left@%d) was validly re-invited for epoch %d and its join with the current group file was answered: %v", X.addr, E, p.epoch, err), h.info(nil))
+			} else {
+				run.Count("left_family_rejoin_answers_refused", 1)
+			}
+			return
 		}
 	}
+	h.net.resetLag()
+	h.net.maxLatNs.Store(0)
+	if err := h.step(c08Opt{kind: "cmd-execute", class: "rejoin-of-left-node", actor: p.leader, target: p.leader}, func() error { return p.leader.cmdExecute() }); err != nil {
+		run.Count("left_family_rejoin_execute_refused", 1)
+		return
+	}
+	h.mu.Lock()
+	h.execs++
+	h.mu.Unlock()
+	h.net.quiesce(2 * time.Second)
+	h.waitExecutions()
+	lag, lat := h.net.lag(), time.Duration(h.net.maxLatNs.Load())
+	h.net.drain(10 * time.Second)
+	out := map[string]string{}
+	xDone, othersDone := false, 0
+	for _, nd := range p.participants() {
+		v := h.view(nd)
+		out[nd.addr] = c08Desc(v)
+		done := v.fin != nil && v.fin.Epoch == p.epoch
+		if nd == X {
+			xDone = done
+		} else if done {
+			othersDone++
+		}
+	}
+	run.Count("left_family_rejoin_dkgs_run", 1)
+	if xDone && othersDone == len(p.participants())-1 {
+		run.Count("left_family_rejoin_dkgs_completed", 1)
+		return
+	}
+	if lag > 150*time.Millisecond || lat > c08Phase/2 {
+		run.Inconclusive(fmt.Sprintf("case %d: re-join DKG of the node that left ended %v while the box was not keeping time (timer lag %v, slowest bundle %v)", h.c.Index, out, lag, lat))
+		return
+	}
+	if !xDone {
+		run.Violation("C08/not-recoverable/rejoin-dkg-of-left-node-fails",
+			fmt.Sprintf("X=%s left in epoch %d (Left@%d, finished %d), was validly invited back as joiner for epoch %d, joined with the current group file, everybody accepted, the leader executed undisturbed: the DKG did not complete for X (%s); %d of %d other participants completed",
+				X.addr, E, E, E-1, p.epoch, out[X.addr], othersDone, len(p.participants())-1),
+			h.info(map[string]any{"outcomes": out, "timer_lag_ms": lag.Milliseconds(), "slowest_bundle_ms": lat.Milliseconds()}))
+		return
+	}
+	run.Count("left_family_rejoin_dkgs_x_completed_but_not_everybody", 1)
 }
